@@ -231,7 +231,12 @@ impl vp::ChronyOps for MockOps {
                 }
             }
         }
-        self.tracking.clone()
+        // every reply says which query it answers (chrony's last_offset field is not used by the daemon): a report may only be
+        // published under an as-of instant read before THAT query
+        self.tracking.clone().map(|mut t| {
+            t.last_offset = ChronyFloat::from(self.queries as f64);
+            t
+        })
     }
     fn is_within_grace_period(&self) -> bool {
         if self.queried.get() {
@@ -294,7 +299,7 @@ pub fn cmd_poller(a: &[&str]) -> String {
     let mut msgs = Vec::new();
     while let Ok(m) = shm_mailbox.try_recv() {
         msgs.push(match m {
-            Message::ClockErrorBoundData((t, phc, asof)) => format!("ClockErrorBoundData:refid={}:phc={}:asof={}.{}", t.ref_id, phc, asof.tv_sec, asof.tv_nsec),
+            Message::ClockErrorBoundData((t, phc, asof)) => format!("ClockErrorBoundData:refid={}:phc={}:asof={}.{}:q={}", t.ref_id, phc, asof.tv_sec, asof.tv_nsec, f64::from(t.last_offset) as i64),
             Message::ChronyNotRespondingGracePeriod => "ChronyNotRespondingGracePeriod".to_string(),
             Message::ChronyNotResponding => "ChronyNotResponding".to_string(),
             Message::PhcErrorBoundRetrievalFailedGracePeriod => "PhcErrorBoundRetrievalFailedGracePeriod".to_string(),
@@ -365,6 +370,61 @@ pub fn cmd_e2e(a: &[&str]) -> String {
     }
 }
 
+/// historyseg <max_drift_ppb> <step> ...: like `history`, but the REAL ShmUpdater writes through the REAL ShmWriter into a segment file
+/// and the record is read back from the file after every step; the step X drops the daemon's updater and writer and starts new ones on
+/// the same file (a daemon restart): records are printed per life, lives separated by "|"
+pub fn cmd_historyseg(a: &[&str]) -> String {
+    let drift: u32 = a.get(0).and_then(|x| x.parse().ok()).unwrap_or(1000);
+    let path = crate::seg::tmp_path("hseg");
+    let _ = std::fs::remove_file(&path);
+    let mut recs: Vec<String> = Vec::new();
+    let res = std::panic::catch_unwind(std::panic::AssertUnwindSafe(|| {
+        let mk = |p: &str| vs::Updater::new(clock_bound_shm::ShmWriter::new(std::path::Path::new(p)).expect("ShmWriter::new"), drift);
+        let mut up = mk(&path);
+        let read_back = |p: &str| -> String {
+            let b = std::fs::read(p).unwrap_or_default();
+            if b.len() < 72 {
+                return "short".into();
+            }
+            let i = |o: usize| i64::from_ne_bytes(b[o..o + 8].try_into().unwrap());
+            let u = |o: usize| u32::from_ne_bytes(b[o..o + 4].try_into().unwrap());
+            format!("{}:{}:{}:{}:{}:{}:{}", i(16), i(24), i(32), i(40), i(48), u(56), u(64))
+        };
+        for step in &a[1..] {
+            let p: Vec<&str> = step.split(',').collect();
+            match p[0] {
+                "R" => {
+                    let t = tracking(f64_of_hex(p[1]), f64_of_hex(p[2]), f64_of_hex(p[3]), f64_of_hex(p[4]), p[5].parse().unwrap(), ref_time_for_age(p[6].parse().unwrap()), 0);
+                    set_clock(BASE_SECS as i128 * 1_000_000_000, 0);
+                    up.clock_update(t, p[7].parse().unwrap(), libc::timespec { tv_sec: p[8].parse().unwrap(), tv_nsec: p[9].parse().unwrap() });
+                    clock_off();
+                    recs.push(read_back(&path));
+                }
+                "G" => {
+                    up.missing(true);
+                    recs.push(read_back(&path));
+                }
+                "N" => {
+                    up.missing(false);
+                    recs.push(read_back(&path));
+                }
+                "X" => {
+                    drop(up);
+                    up = mk(&path);
+                    recs.push("|".into());
+                }
+                _ => {}
+            }
+        }
+    }));
+    clock_off();
+    let _ = std::fs::remove_file(&path);
+    match res {
+        Ok(()) => format!("ok {}", recs.join(" ")),
+        Err(p) => format!("panic {} after {}", crate::panic_msg(&p), recs.join(" ")),
+    }
+}
+
 /// refid <hex bytes of the string>: the real refid_to_u32
 pub fn cmd_refid(a: &[&str]) -> String {
     let hex = a.get(0).copied().unwrap_or("");
@@ -417,6 +477,9 @@ pub fn cmd_msgloop(a: &[&str]) -> String {
             }
             "G" => Message::ChronyNotRespondingGracePeriod,
             "N" => Message::ChronyNotResponding,
+            // the PHC flavours of a missing update (same updater calls as G / N)
+            "PG" => Message::PhcErrorBoundRetrievalFailedGracePeriod,
+            "PN" => Message::PhcErrorBoundRetrievalFailed,
             _ => continue,
         };
         let _ = dbox.send(&ChannelId::ShmWriter, msg);
